@@ -1,7 +1,10 @@
 """C06 — Game lifecycle: turns, balls and lifecycle events are well-formed.
 
 One case = one booted machine (real Game / Attract / Tilt modes, real EventManager, MPF's TimeTravelLoop; no ball
-devices: balls are drained by posting the real `ball_drain` relay event) playing 1-2 generated games.  Requests
+devices: balls are drained by posting the real `ball_drain` relay event) playing 1-3 generated games.  In ~40 % of
+the cases `game: balls_per_game` is a dynamic template (operator setting `settings.balls_per_game` or machine variable
+`machine.c06_bpg`) whose value is changed between the games played on the same booted machine; the reference
+automaton takes balls_per_game as it evaluates when each game starts.  Requests
 (drain, saved drain, balls added to play, extra-ball award, player add with/without denial, end_ball, end_game,
 slam tilt, tilt) are injected
   * from a mid-priority handler of a chosen occurrence of each lifecycle event (so they land inside every gap,
@@ -26,7 +29,8 @@ LEVEL_NOTE = ("Trusts MPF's EventManager ordering (C01/C02) to deliver the recor
               "device; balls_in_play is the game's own counter). Tolerances are listed in assumptions.")
 TECHNIQUE = ("runtime monitoring: online reference automaton (push-down grammar + counters + set-valued balls-in-play "
              "model) over recorded lifecycle-event handler invocations, with request injection from inside handlers")
-RULE = ("case = one machine, 1-2 games, generated hook ops (event, occurrence, request), queue holds and a timed "
+RULE = ("case = one machine, 1-3 games (balls_per_game constant, or a setting/machine-variable template changed "
+        "between games), generated hook ops (event, occurrence, request), queue holds and a timed "
         "top-level script; distinct = roster/balls config + multiset of (lifecycle event, request kind) injections + "
         "top-level request kinds; non-trivial = a game ran to game_ended, at least one request was injected from "
         "inside a lifecycle handler, and the turn-order, ball-end-cause and grammar oracles were all evaluated")
@@ -51,6 +55,8 @@ ASSUMPTIONS = [
     "queue holds (0-2.5 s) are placed on the six lifecycle queue events only; player_adding is never held (it is not "
     "one of the lifecycle events the statement quantifies over), requests are still injected from inside it",
     "no ball devices: add_ball on the playfield is a no-op, num_balls_known is fixed per case (1-4)",
+    "a dynamic balls_per_game (setting / machine variable) is only changed while no game is active (>= 1 s after "
+    "game_ended, before the start request); each game must use the value configured when it starts",
 ]
 HORIZONS = {"ball_end_s": 1e-6, "final_drain_step_s": 3, "after_end_settle_s": 1, "max_queue_hold_s": 2.5}
 TIERS = {
@@ -60,11 +66,11 @@ TIERS = {
 MIN_EVALS = {"quick": {"grammar": 90000, "turn_order": 6000, "ball_number": 6000, "extra_ball": 7000, "args": 60000,
                        "ball_end_cause": 7000, "ball_end_progress": 7000, "game_end_legit": 1600,
                        "end_request_honoured": 6000, "bip_range": 500000, "after_end": 2400, "nesting": 90000,
-                       "game_progress": 1600},
+                       "game_progress": 1600, "bpg_change": 400},
              "thorough": {"grammar": 2000000, "turn_order": 130000, "ball_number": 130000, "extra_ball": 150000,
                           "args": 1300000, "ball_end_cause": 150000, "ball_end_progress": 150000,
                           "game_end_legit": 36000, "end_request_honoured": 130000, "bip_range": 10000000,
-                          "after_end": 50000, "nesting": 2000000, "game_progress": 36000}}
+                          "after_end": 50000, "nesting": 2000000, "game_progress": 36000, "bpg_change": 10000}}
 SHRINK_KEYS = ["hooks", "holds", "timeline"]
 
 _LC = [
@@ -124,6 +130,15 @@ def gen_case(rng, tier, index):
     case = {"balls_per_game": balls, "max_players": rng.choice([1, 2, 3, 4, 4]), "balls_known": rng.choice([1, 2, 3, 4]),
             "games": rng.choice([1, 2, 2]), "hooks": [], "holds": [], "timeline": []}
     big = tier != "quick"
+    # balls_per_game as a dynamic template whose value is changed between games on the same machine
+    k = rng.random()
+    case["bpg_mode"] = "const" if k < 0.6 else ("setting" if k < 0.85 else "machine_var")
+    if case["bpg_mode"] != "const":
+        case["games"] = rng.choice([2, 3, 3])
+        vals = [balls]
+        while len(vals) < case["games"]:
+            vals.append(rng.choice([v for v in (1, 2, 3, 4, 5) if v != vals[-1]] + [vals[-1]]))
+        case["bpg"] = vals
     for g in range(case["games"]):
         for _ in range(rng.choice([0, 0, 1, 1, 2, 3])):
             case["timeline"].append([g, rng.choice([None, 0, 0.5]), ["add_player", rng.choice(["call", "event"]), False]])
@@ -162,10 +177,24 @@ def run_case(case):
     from vlib.boot import VMachine, MpfCrash
     from vlib.c06_model import Oracle
 
-    B, K = case["balls_per_game"], case["balls_known"]
+    K = case["balls_known"]
+    bpg_mode = case.get("bpg_mode", "const")
+    bpg = case.get("bpg") or []
+
+    def b_of(g):
+        return bpg[g] if bpg_mode != "const" and g < len(bpg) else case["balls_per_game"]
+
     cfg = {"modes": ["tilt", "c06_m1", "c06_m2"],
-           "game": {"balls_per_game": B, "max_players": case["max_players"], "add_player_event": "req_add"}}
-    orc = Oracle(B, K, HORIZONS["ball_end_s"])
+           "game": {"balls_per_game": case["balls_per_game"], "max_players": case["max_players"],
+                    "add_player_event": "req_add"}}
+    if bpg_mode == "setting":
+        cfg["game"]["balls_per_game"] = "settings.balls_per_game"
+        cfg["settings"] = {"balls_per_game": {"label": "Balls per game", "values": {v: str(v) for v in range(1, 6)},
+                                              "default": 3, "key_type": "int", "sort": 100}}
+    elif bpg_mode == "machine_var":
+        cfg["game"]["balls_per_game"] = "machine.c06_bpg"
+        cfg["machine_vars"] = {"c06_bpg": {"initial_value": 3, "value_type": "int", "persist": False}}
+    orc = Oracle(b_of(0), K, HORIZONS["ball_end_s"])
     obs = {"hook_ops": 0, "top_ops": 0, "holds": 0, "hold_secs_x10": 0, "saves": 0, "loop_iterations": 0,
            "roster_exceeded_max_players": 0, "final_drains": 0}
     shape_hooks, shape_top = set(), []
@@ -342,6 +371,17 @@ def run_case(case):
         try:
             for g in range(case["games"]):
                 st["g"] = g
+                B = b_of(g)
+                if bpg_mode == "setting":
+                    m.settings.set_setting_value("balls_per_game", B)
+                elif bpg_mode == "machine_var":
+                    m.variables.set_machine_var("c06_bpg", B)
+                if bpg_mode != "const":
+                    adv(0.5)
+                    got = m.config["game"]["balls_per_game"].evaluate([])
+                    if got != B:
+                        raise RuntimeError("balls_per_game template evaluates to %r, expected %r (harness)" % (got, B))
+                orc.set_balls_per_game(B)
                 started_before = orc.obs["games_started"]
                 vm.t.hit_and_release_switch("s_start")
                 adv(1.0)
@@ -393,8 +433,9 @@ def run_case(case):
     cl = orc.clauses
     nontrivial = (orc.obs["games_ended"] >= 1 and obs["hook_ops"] >= 1 and cl["turn_order"] > 0 and
                   cl["ball_end_cause"] > 0 and cl["grammar"] > 0)
-    shape = "B%dM%dK%dG%d|%s|%s" % (B, case["max_players"], K, case["games"], ",".join(sorted(shape_hooks)),
-                                    "".join(shape_top)[:60])
+    shape = "B%s%sM%dK%dG%d|%s|%s" % ("".join(str(b_of(g)) for g in range(case["games"])), bpg_mode[0],
+                                      case["max_players"], K, case["games"], ",".join(sorted(shape_hooks)),
+                                      "".join(shape_top)[:60])
     # unknown/unexplained signatures first
     order = {"C06:player_add_after_first_round_rotation": 1}
     viol = sorted(orc.viol, key=lambda v: order.get(v["sig"], 0))
